@@ -41,9 +41,27 @@ def main(argv=None):
     try:
         model = Model(a.repo)
         ctx = report.Ctx(prop, a.tier, seed, model)
-        info = mod.run(ctx)
-        if a.tier == "thorough" and not a.no_selftest and hasattr(mod, "selftest"):
-            ctx.extra["selftest"] = mod.selftest(ctx)
+        try:
+            info = mod.run(ctx)
+        except report.AnalysisError as ex:
+            # part of the analysis could not be carried out.  If violations were already established they are
+            # reported (exit 1) with the failure as a note; otherwise the run is analysis-broken (exit 2).
+            known = {k["key"] for k in report.load_known() if k.get("status") == "known"}
+            if not [f for f in ctx.findings if f.key not in known]:
+                raise
+            ctx.shortfalls.append("analysis incomplete: %s" % ex)
+            info = dict(explanation="analysis incomplete (%s); the violations found before that point are reported" % ex,
+                        assumptions=[], technique="")
+        if a.tier == "thorough" and not a.no_selftest:
+            sys.path.insert(0, os.path.join(HERE, "selftest"))
+            import run as selftest_run
+            summary, res = selftest_run.run_for(prop)
+            ctx.extra["selftest"] = dict(summary, results=[dict(id=r["id"], kind=r["kind"], status=r["status"], exit=r.get("exit")) for r in res])
+            if summary["wrong"]:
+                print("ANALYSIS-ERROR property=%s self-test: %d variant(s) judged wrongly: %s" % (
+                    prop, len(summary["wrong"]), [w["id"] for w in summary["wrong"]]))
+                report.finish(ctx, info["explanation"], info["assumptions"], technique=info.get("technique", ""))
+                return 2
         return report.finish(ctx, info["explanation"], info["assumptions"], technique=info.get("technique", ""))
     except report.AnalysisError as ex:
         print("ANALYSIS-ERROR property=%s %s" % (prop, ex))
